@@ -510,7 +510,8 @@ class ExprMixin:
                 item = ctx.unopt(item, "TypeError", "in-str")
             return ctx.strs.contains(item, container)
         if isinstance(container, (tuple, list, set, frozenset)):
-            parts = [ctx.equal(item, c) for c in container]
+            parts = [(self.compare(ast.Eq(), item, c) if isinstance(item, SV) and item.ty.name == "Ref" and isinstance(c, SV)
+                      and c.ty.name == "Ref" else ctx.equal(item, c)) for c in container]
             if all(isinstance(p, bool) for p in parts):
                 return any(parts)
             return z3.Or(*[ctx.zbool(p) for p in parts])
@@ -530,6 +531,13 @@ class ExprMixin:
                     return self.contains(tuple(container.conc.keys()), item)
                 return self.contains(tuple(container.conc), item)
             ty = container.sym.ty
+            if container.kind == "list" and ty.args[0].name == "Ref" and isinstance(item, SV) and item.ty.name == "Ref" \
+                    and C.CLASSES.get(ty.args[0].args[0].name, {}).get("structural_eq"):
+                # python's `x in L` is any(x is e or x == e): for a class whose __eq__ is structural that is NOT identity membership
+                s = sort_of(ty)
+                k = z3.Int(ctx.fresh_name("k"))
+                e = ctx.wrap(z3.Select(s.data(container.sym.t), k), ty.args[0])
+                return z3.Exists([k], z3.And(0 <= k, k < s.len(container.sym.t), ctx.zbool(self.compare(ast.Eq(), item, e))))
             if container.kind == "list" and ty.args[0].name in ("Ref", "Int", "Str") \
                     and ctx.type_of(item) is not None and ctx.type_of(item).name != "Opt":
                 from .core import mem_fn
